@@ -11,7 +11,8 @@ RULE = ('cases = pipelines prefix . observer . suffix: prefix of row-wise steps 
         'discard rows or whole resources (filter_rows, delete_resource of first/middle/last/all resources, concatenate, join with and '
         'without source_delete, deduplicate); compared: downstream rows/schemas with and without the observer, what the observer '
         'persisted/reported vs the prefix run alone, finalizer call count and position; non-trivial = the suffix discards rows or '
-        'resources; distinct = distinct case digest')
+        'resources; distinct = distinct case digest'
+        '; round 4: also dump_to_path(force_format=False) with unknown extensions at any position, prefixes that empty the first resource, and an inner join on the emptied resource behind every observer')
 TRUSTED = ['Coq 8.16.1 kernel + vm_compute', 'harness/p05.py oracle (reads back what the observer persisted)',
            'stamps the file dumpers are documented to write into the descriptor are whitelisted (path suffix, format, encoding, dialect, mediatype, profile, temporal format, decimalChar, groupChar, bareNumber, trueValues, falseValues, counters)']
 ASSUMES = ['suffix steps are built-in steps or user steps that drain their input']
